@@ -402,7 +402,7 @@ impl OptSet {
         if rng.chance(1, 8) { o.email_file = Some(rng.pick(&[&b"example.com==>corp.example\n"[..], b"a17@e==>b@e\n", b"a==>b\n"]).to_vec()); }
         if rng.chance(1, 8) { o.author_file = Some(rng.pick(&[&b"17==>99\n"[..], b"author==>writer\n", b"A U Thor==>A. U. Thor\n", b"e==>E\nex==>X\n"]).to_vec()); }
         if rng.chance(1, 8) { o.committer_file = Some(rng.pick(&[&b"17==>99\n"[..], b"committer==>pusher\n", b"J==>K\n"]).to_vec()); }
-        if rng.chance(1, 6) { o.shift = Some(*rng.pick(&[-3600i64, 3600, -2000000000, 86400, -1])); }
+        if rng.chance(1, 6) { o.shift = Some(*rng.pick(&[-3600i64, 3600, -2000000000, 86400, -1, -97200, 779400, -5400, 90061, -694861])); }
         if rng.chance(1, 12) { o.set = Some(*rng.pick(&[0i64, 1234567890])); }
         o.prune_empty = *rng.pick(&[0u8, 1, 1, 2]);
         o.prune_degenerate = *rng.pick(&[0u8, 1, 1, 2]);
